@@ -186,7 +186,7 @@ def cv_obligations():
 
 
 def c11_obligations():
-    return utils_obligations() + cv_obligations() + cvsplit_obligations()
+    return utils_obligations() + cv_obligations() + cvsplit_obligations() + bss_obligations()
 
 
 CHAIN_FUNCS = ["Chain.predict", (os.path.join("verde", "base", "utils.py"), "check_data")]
@@ -228,3 +228,27 @@ def cvsplit_obligations():
     """BlockKFold._iter_test_indices / BaseBlockCrossValidator.split against Model/CrossVal.v (property C11)"""
     tag, mod_, funcs, tmpl, imports = CVSPLIT_SPEC
     return tie(tag, mod_, funcs, tmpl, CVSPLIT_THEOREMS, imports)
+
+
+BSS_FUNCS = ["BlockShuffleSplit._iter_test_indices"]
+BSS_THEOREMS = ["src_BlockShuffleSplit_iter_test_indices_eq"]
+BSS_SPEC = ("BSSSrc", os.path.join("verde", "model_selection.py"), BSS_FUNCS, "pylite_bss.v.tmpl", CVSPLIT_IMPORTS)
+
+
+def bss_obligations():
+    """BlockShuffleSplit._iter_test_indices against Model/CrossVal.v block_shuffle_split (property C11)"""
+    tag, mod_, funcs, tmpl, imports = BSS_SPEC
+    return tie(tag, mod_, funcs, tmpl, BSS_THEOREMS, imports)
+
+
+WINDOWS_FUNCS = ["rolling_window", "expanding_window"]
+WINDOWS_THEOREMS = ["src_expanding_window_eq", "expanding_window_model", "src_rolling_window_eq", "rolling_window_model"]
+WINDOWS_IMPORTS = ("From Verde Require Import Model.CoordCases Model.Blocks Model.Windows Proofs.PyLiteBridge.")
+WINDOWS_SPEC = ("WindowsSrc", os.path.join("verde", "coordinates.py"), WINDOWS_FUNCS, "pylite_windows.v.tmpl",
+                WINDOWS_IMPORTS)
+
+
+def windows_obligations():
+    """rolling_window / expanding_window (validation, window centres, query plumbing) against Model/Windows.v (C14)"""
+    tag, mod_, funcs, tmpl, imports = WINDOWS_SPEC
+    return tie(tag, mod_, funcs, tmpl, WINDOWS_THEOREMS, imports)
